@@ -9,7 +9,9 @@ from pbt.util import call
 ID = "C06"
 TITLE = "Cost is the stated loss of the model trajectory against the data"
 RULE = ("Hypothesis builds a benign ODE model (linear chains, epidemic mass-action models, saturating interactions; optional periodic "
-        "forcing), parameters theta*, x0, t0, an observation grid of 3-12 times, an observed-state selection (one name as str, a 1-list, or "
+        "forcing; in 1 of 4 cases a pygom.common_models entry - SIR_norm, SIS, SIR, SEIR, Lotka_Volterra, FitzHugh - with a hand-written "
+        "abstract mirror), the inputs in a generated container/dtype form (float or integer typed time grid with a possibly fractional t0, "
+        "list / array / int-array data, list / array / tuple x0), parameters theta*, x0, t0, an observation grid of 3-12 times, an observed-state selection (one name as str, a 1-list, or "
         "several names in a generated order), the loss class with scalar / per-state / per-observation spread, weights (Square, Normal), an "
         "optional target_param subset, evaluation parameters theta != theta* and data = reference trajectory at theta* (optionally perturbed; "
         "rounded to positive integers for count losses). Oracle: trajectory from an independent integrator on the abstract model's own "
